@@ -265,7 +265,9 @@ DC_SPECS.update({
 # a positional-OUTPUT dataclass holding an externally tagged union: each field is written by ITS declared type, in every layout
 DC_SPECS['dc_tuptag'] = dict(name='DcTuptag', opts={'in_format': ['tuple', 'struct'], 'out_format': 'tuple'},
                              fields=[_f('n', 'int'), _f('u', 'tag_ext'), _f('w', 'tag_adj')])
-for _k in ('dc_v1', 'dc_v2', 'dc_i1', 'dc_i2', 'dc_tuptag'):
+# containers of typed values as constructor arguments: a list of dataclass instances, a mapping of sets
+DC_SPECS['dc_listdc'] = dict(name='DcListdc', opts={}, fields=[_f('items', ['list', 'dc_struct']), _f('groups', ['dict', 'str', ['set', 'int']], ['factory', 'dict'])])
+for _k in ('dc_v1', 'dc_v2', 'dc_i1', 'dc_i2', 'dc_tuptag', 'dc_listdc'):
     LEAF_TYPES[_k] = (lambda k=_k: [dc_class(k)])
 # tagged unions over them: (layout, {tag: variant leaf})
 TAGGED = {'tag_int': ('internal', {'v1': 'dc_v1', 'v2': 'dc_v2'}), 'tag_ext': ('external', {'v1': 'dc_v1', 'v2': 'dc_v2'}),
@@ -703,7 +705,7 @@ def expressions(tier: str) -> t.List[t.Any]:
             for e in (['list', u], ['tuplevar', u], ['dict', 'str', u], ['deque', u], ['tuple', u, 'int'], ['struct', ['k', u]],
                       ['optional', u], ['list', ['list', u]]):
                 add(e)
-    for e in ('dc_tuptag', ['list', 'dc_tuptag'], ['optional', 'dc_tuptag']):
+    for e in ('dc_tuptag', ['list', 'dc_tuptag'], ['optional', 'dc_tuptag'], 'dc_listdc', ['list', 'dc_listdc'], ['dict', 'str', 'dc_listdc']):
         add(e)
     for e in (['set', 'dc_hidden'], ['frozenset', 'dc_hidden'], ['dict', 'dc_hidden', 'int'], ['list', ['set', 'dc_hidden']]):
         add(e)
